@@ -26,7 +26,8 @@ BINARIES = {
 
 T = "./internal/transfer"
 
-HOOK_COMMITS = []
+HOOK_COMMITS = ["f6caa67"]
+X = "./internal/verifxfer"
 
 # properties whose check is not registered (yet); reason shown under not_applicable
 PENDING = {}
@@ -72,6 +73,47 @@ CHECKS = {
             {"name": "transfer", "pkg": T, "run": "^TestVerifC18",
              "quick": {"checks": 3000, "shards": 1, "timeout": 600},
              "thorough": {"checks": 40000, "shards": 16, "timeout": 3000}},
+        ],
+    },
+    "C01": {
+        "level": "exploration",
+        "level_text": ("Generated transfers (rapid) of generated trees through the real SendManifestMultiStream/RecvManifestMultiStream "
+                       "(and the legacy single-stream pair) over the harness's in-memory multi-stream transport (plain and with QUIC "
+                       "stream visibility, 1-4 connections through NewMultiConn with the production stream budget) and over real "
+                       "loopback QUIC; oracle: whenever both endpoints return nil, the whole output tree (paths, kinds, sizes, SHA-256, "
+                       "nothing extra) equals the source tree mapped by the root-dir/scan mode. Worker interleavings are perturbed "
+                       "through the verif hook points. Sampling is the only feasible level for trees x configs x schedules."),
+        "level_note": "Trusted: the harness transport (memnet, validated against quic-go behaviour), SHA-256, the expected-layout mapping; interleavings are sampled, not enumerated.",
+        "technique": "property-based testing (rapid) with a whole-tree differential oracle (source tree vs. received tree) over generated trees/configurations and hook-perturbed schedules",
+        "rule": ("case = tree (0-12 files, sizes biased to chunk boundaries, nested/empty dirs, unusual names) x chunk size x streams 1-8 x "
+                 "connections 1-4 x resume flags x root-dir mode x scan mode x protocol x transport x perturbation plan. Non-trivial = "
+                 "both sides succeeded AND some file has >= 2 chunks AND (streams >= 2 or connections >= 2); distinct by fingerprint of "
+                 "tree shape, size classes and configuration."),
+        "assumptions": ["success = both endpoint functions return nil", "resume-metadata directories are ignored in the comparison"],
+        "units": [
+            {"name": "xfer", "pkg": X, "run": "^TestVerifC01",
+             "quick": {"checks": 1200, "shards": 4, "timeout": 900},
+             "thorough": {"checks": 3000, "shards": 16, "timeout": 3000}},
+        ],
+    },
+    "C03": {
+        "level": "exploration",
+        "level_text": ("A bounded grid (files x chunks-per-file x streams x connections x resume) is enumerated completely and random "
+                       "cases beyond it are sampled; each runs the real endpoints over the in-memory transport with QUIC stream "
+                       "visibility (and real loopback QUIC); oracle: both endpoints return nil, with a watchdog and an idle detector "
+                       "(no byte moved for 5 s) and a goroutine-dump classifier naming where the endpoints are parked. Liveness is "
+                       "approximated by a safety check with a large bound."),
+        "level_note": "Trusted: idle detector (5 s without any byte while not finished = hang; a fault-free run takes milliseconds), memnet's visibility rule (cross-checked against quic-go).",
+        "technique": "bounded-exhaustive grid + property-based testing (rapid) with completion/watchdog oracle and hook-forced arrival orders",
+        "rule": ("grid cells files {0,1,2,3,5} x chunks/file {0,1,2,3,7} x streams x connections x resume, plus rapid cases (small-file "
+                 "trees, unusual names, forced chunk-overtakes-FileBegin order). Non-trivial = streams > total chunks, or a zero-length "
+                 "file / no file at all, or connections > 1; distinct by cell or case fingerprint."),
+        "assumptions": ["a run without byte movement for 5 s that has not finished is a hang"],
+        "exhaustive_if_units": ["grid"],
+        "units": [
+            {"name": "xfer", "pkg": X, "run": "^TestVerifC03",
+             "quick": {"checks": 600, "shards": 8, "timeout": 900},
+             "thorough": {"checks": 1500, "shards": 16, "timeout": 3000}},
         ],
     },
 }
